@@ -23,6 +23,17 @@ func init() { register("exact", exactEngine) }
 var linearModels = map[string]bool{"Lag": true, "Muskingum": true, "Sum": true, "Input": true, "FixedPartition": true,
 	"ApplyScalingFactor": true, "DeliveryRatio": true}
 
+// linear in the MASS quantities (the listed inputs, every state, every output) for fixed parameters and fixed water
+// series: constituent models whose thresholds are all on water volumes.  LumpedConstituentRouting only when its point
+// source (a mass rate given as a parameter) is zero.
+var massLinearInputs = map[string]map[string]bool{
+	"ConstituentDecay":           {"inflowLoad": true, "lateralLoad": true},
+	"LumpedConstituentRouting":   {"inflowLoad": true, "lateralLoad": true},
+	"StorageTrapAll":             {"inflowMass": true},
+	"StorageDissolvedDecay":      {"inflowMass": true},
+	"StorageParticulateTrapping": {"inflowLoad": true},
+}
+
 type rat [2]float64
 
 func (r rat) f() float64 { return r[0] / r[1] }
@@ -155,6 +166,17 @@ func exactEngine(args []string) error {
 		if linearModels[e.Model] {
 			npass = 4
 		}
+		massIn, massLinear := massLinearInputs[e.Model]
+		if massLinear && e.Model == "LumpedConstituentRouting" {
+			for pi, pd := range desc.Parameters {
+				if pd.Name == "pointInput" && pi < len(e.Params) && e.Params[pi].f() != 0 {
+					massLinear = false
+				}
+			}
+		}
+		if massLinear {
+			npass = 4
+		}
 		for pass := 1; pass <= npass; pass++ {
 			if pass >= 3 {
 				sc := math.Ldexp(1, -40)
@@ -169,7 +191,11 @@ func exactEngine(args []string) error {
 				iArr2 := data.NewArray3DFloat64(1, len(e.Inputs), T)
 				for j := range e.Inputs {
 					for t := 0; t < T; t++ {
-						iArr2.Set3(0, j, t, e.Inputs[j][t].f()*sc)
+						if massLinear && !massIn[desc.Inputs[j]] {
+							iArr2.Set3(0, j, t, e.Inputs[j][t].f()) // a water series: not scaled
+						} else {
+							iArr2.Set3(0, j, t, e.Inputs[j][t].f()*sc)
+						}
 					}
 				}
 				oArr2 := data.NewArray3DFloat64(1, len(desc.Outputs), T)
@@ -185,7 +211,7 @@ func exactEngine(args []string) error {
 					for t := 0; t < T && !bad; t++ {
 						got, want := oArr2.Get3(0, k, t), c.Out[k][t].f()*sc
 						if !nearly(got/sc, want/sc, scale) {
-							fail("output", fmt.Sprintf("with inputs and states scaled by 2^%d: output %s[%d] = %v, the scaled exact value is %v (linear model)", map[int]int{3: -40, 4: 40}[pass], desc.Outputs[k], t, got, want))
+							fail("output", fmt.Sprintf("with inputs and states scaled by 2^%d: output %s[%d] = %v, the scaled exact value is %v (linear / mass-linear model)", map[int]int{3: -40, 4: 40}[pass], desc.Outputs[k], t, got, want))
 							bad = true
 						}
 					}
@@ -196,7 +222,7 @@ func exactEngine(args []string) error {
 					}
 					got, want := sArr2.Get2(0, k), c.St[k].f()*sc
 					if !nearly(got/sc, want/sc, scale) {
-						fail("state", fmt.Sprintf("with inputs and states scaled by 2^%d: final state %d = %v, the scaled exact value is %v (linear model)", map[int]int{3: -40, 4: 40}[pass], k, got, want))
+						fail("state", fmt.Sprintf("with inputs and states scaled by 2^%d: final state %d = %v, the scaled exact value is %v (linear / mass-linear model)", map[int]int{3: -40, 4: 40}[pass], k, got, want))
 						bad = true
 					}
 				}
